@@ -109,7 +109,24 @@ _WARM = {}          # id(shot) -> (shot, apply_decoy, restore, set of warmed cal
 
 def _restated_shot(s):
     final = {k: v for k, v in s.items() if k != "_restate"}
-    sh = shot(final)                  # final state; the decoy state is applied to these same objects
+    if s["_restate"] == "assign":
+        # the objects are constructed holding other values and given their final ones through the public attributes afterwards
+        # (a rifle re-described for the next string: BC trued, velocity chronographed, scope re-mounted, rifle re-aimed)
+        other = dict(final, bc=final["bc"] * 1.4 + 0.01, mv_fps=final["mv_fps"] * 0.8 + 100.0,
+                     sight_height_in=final.get("sight_height_in", 0.0) + 0.7, twist_in=(final.get("twist_in", 0.0) or 9.0) * -1.2,
+                     zero_deg=final.get("zero_deg", 0.0) + 0.3, look_deg=final.get("look_deg", 0.0) * 0.5 + 2.0,
+                     rel_deg=final.get("rel_deg", 0.0) + 0.5, cant_deg=final.get("cant_deg", 0.0) * 0.5 + 10.0)
+        sh = shot(other)
+        sh.ammo.dm.BC = final["bc"]
+        sh.ammo.mv = Velocity.FPS(final["mv_fps"])
+        sh.weapon.sight_height = Distance.Inch(final.get("sight_height_in", 0.0))
+        sh.weapon.twist = Distance.Inch(final.get("twist_in", 0.0))
+        sh.weapon.zero_elevation = Angular.Degree(final.get("zero_deg", 0.0))
+        sh.look_angle = Angular.Degree(final.get("look_deg", 0.0))
+        sh.relative_angle = Angular.Degree(final.get("rel_deg", 0.0))
+        sh.cant_angle = Angular.Degree(final.get("cant_deg", 0.0))
+    else:
+        sh = shot(final)              # final state; the decoy state is applied to these same objects
     _WARM[id(sh)] = (sh, final, set())
     _use_in_decoy_state(Calculator(), sh, final)        # object-level memos are filled in the decoy state
     return sh
